@@ -29,6 +29,20 @@ type convRec struct {
 	Identity bool     `json:"identity"`
 }
 
+type dObj struct{ at.Object }
+type dList struct{ at.List }
+
+func newDObj() at.Object {
+	d := &dObj{Object: at.NewObject("x", 1)}
+	d.Init(d)
+	return d
+}
+func newDList() at.List {
+	d := &dList{List: at.NewList("x", 1)}
+	d.Init(d)
+	return d
+}
+
 type level int8
 type sname string
 type pair struct{ A, B int }
@@ -160,6 +174,12 @@ func members(cls string, rng *rand.Rand, full bool) []member {
 		out = append(out, member{v: o, same: o})
 	case "List":
 		l := at.NewList("x", 1)
+		out = append(out, member{v: l, same: l})
+	case "derived Object":
+		o := newDObj()
+		out = append(out, member{v: o, same: o})
+	case "derived List":
+		l := newDList()
 		out = append(out, member{v: l, same: l})
 	case "map[string]any":
 		m := map[string]any{"a": 1, "b": []any{int8(2), map[string]any{"c": uint16(3)}}}
@@ -756,6 +776,50 @@ func cmdConvert(args []string) int {
 			st.sample(fmt.Sprintf("%s via %s (%s) -> %s, %d members", r.Cls, r.Ep, r.Ctx, r.Kind, len(ms)))
 		}
 	})
+	// state left behind by rejections: thousands of recovered nested rejections, then every supported class once more
+	if st.nviol() == 0 {
+		l := at.NewList()
+		o := at.NewObject()
+		deep := any(pair{1, 2})
+		for d := 0; d < 40; d++ {
+			if d%2 == 0 {
+				deep = []any{deep}
+			} else {
+				deep = map[string]any{"k": deep}
+			}
+		}
+		for i := 0; i < 3000; i++ {
+			func() { defer func() { recover() }(); l.Add(deep) }()
+			func() { defer func() { recover() }(); o.Set("k", deep) }()
+			func() { defer func() { recover() }(); at.NewList([]any{map[string]any{"k": make(chan int)}}) }()
+		}
+		for i, r := range recs {
+			if r.Kind == "reject" || (r.Ep != "Add" && r.Ep != "Set" && r.Ep != "NewList" && r.Ep != "NewObjectFrom") {
+				continue
+			}
+			rng := rand.New(rand.NewSource(*seed + int64(i)))
+			ms := members(r.Cls, rng, false)
+			if len(ms) > 3 {
+				ms = ms[:3]
+			}
+			for _, m := range ms {
+				atomic.AddInt64(&st.evals, 1)
+				var err error
+				if g := guard(func() error { err = checkConvert(r, m); return nil }); g != nil {
+					err = g
+				}
+				if err != nil {
+					b, _ := json.Marshal(r)
+					st.fail(&docViolation{Property: *prop, Message: fmt.Sprintf("after 9000 recovered rejections of nested unsupported values: %s via %s (%s): %v", r.Cls, r.Ep, r.Ctx, err),
+						Sig: "convert-after-rejections: " + r.Cls, Check: "convert", Input: string(b), Text: fmt.Sprintf("%#v", m.v), Seed: *seed})
+					break
+				}
+			}
+			if st.nviol() > 0 {
+				break
+			}
+		}
+	}
 	return finishDocs(*prop, st, *out, *replayDir, map[string]any{"tlc_records": len(recs), "wall_s": time.Since(start).Seconds()})
 }
 
